@@ -70,7 +70,7 @@ theorem packStep_inv (info : CompId → CompInfo) (w1 : WM) (e : Handle) (isCrea
       simp only
       split
       · split
-        · exact h
+        · exact ⟨h.ok, h.keys, maskOk_closedMask _ (maskOk_erase h.fin c), fun _ => hsame, h.slen⟩
         · exact ⟨h.ok, h.keys, maskOk_closedMask _ (maskOk_erase h.fin c), fun _ => hsame, h.slen⟩
       · exact h
     | assign _ c v =>
@@ -247,12 +247,13 @@ theorem applyPack_inv (info : CompId → CompInfo) {w : WM} (hok : RowsOK w) (hk
               exact ⟨hok, hk, hk.masks ai (lt_of_row hr), fun hc => Bool.noConfusion hc, fun _ => hp'⟩
       rcases hstart with ⟨hok1, hk1, hm0, hcr, hlc⟩
       have hinv0 : PackInv w1 first.entity (isCreateCmd first)
-          (w1, { final := closedMask w1.deps initial0 }, []) :=
-        ⟨hok1, KeysSame.refl w1, maskOk_closedMask _ hm0, fun _ => ⟨rfl, rfl⟩, fun hc => (hcr hc).2.2.2⟩
+          (w1, { final := packInit (isCreateCmd first) w1.deps initial0 }, []) :=
+        ⟨hok1, KeysSame.refl w1, by unfold packInit; split; exact maskOk_closedMask _ hm0; exact hm0,
+          fun _ => ⟨rfl, rfl⟩, fun hc => (hcr hc).2.2.2⟩
       have hinv := packFold_inv info w1 first.entity (isCreateCmd first)
         (if isCreateCmd first = true then rest else first :: rest) _ hinv0
       generalize (List.foldl (packStep info first.entity (isCreateCmd first))
-        (w1, { final := closedMask w1.deps initial0 }, [])
+        (w1, { final := packInit (isCreateCmd first) w1.deps initial0 }, [])
         (if isCreateCmd first = true then rest else first :: rest)) = st at hinv
       rcases st with ⟨w2, p, cbs⟩
       have harchs : (isCreateCmd first = true ∨ p.dead = false) → ∀ ai, w2.arch ai = w1.arch ai :=
